@@ -464,7 +464,7 @@ def _gen_step(rng, kind, vals):
         i = _pick(rng, vals, lambda a: a.ndim >= 1)
         if i is None:
             return None
-        return dict(op="repeat", args=[i], kw=dict(repeats=rng.randint(1, 3), axis=rng.randrange(-A(i).ndim, A(i).ndim)))
+        return dict(op="repeat", args=[i], kw=dict(repeats=(0 if rng.random() < 0.1 else rng.randint(1, 3)), axis=rng.randrange(-A(i).ndim, A(i).ndim)))
     if kind == "tile":
         i = _pick(rng, vals, lambda a: 1 <= a.ndim <= 2 and a.size <= 20)
         if i is None:
@@ -502,6 +502,17 @@ def _gen_step(rng, kind, vals):
         if i is None:
             return None
         idx = []
+        if rng.random() < 0.2:
+            # idioms that keep every axis at full length: whole-axis reversal x[::-1], x[:, ::-1], x[::-1, ::-1], x[..., ::-1]
+            rev = [rng.random() < 0.6 for _ in A(i).shape]
+            if not any(rev):
+                rev[rng.randrange(len(rev))] = True
+            idx = [[None, None, -1] if f else [None, None, None] for f in rev]
+            if rng.random() < 0.3 and len(idx) > 1 and rev[-1] and not any(rev[:-1]):
+                idx = ["ellipsis", [None, None, -1]]
+            elif rng.random() < 0.2:
+                idx.insert(rng.randrange(len(idx) + 1), "newaxis")
+            return dict(op="index", args=[i], kw=dict(idx=idx))
         for s in A(i).shape:
             r = rng.random()
             if r < 0.2:
